@@ -735,10 +735,15 @@ func run(tb ev.TB, c groupCase) (labels []string, nontrivial bool) {
 				}
 			}
 		}
-		if gap := gi.start.Sub(syncedAt); !syncedAt.IsZero() && gap >= 10*hb+300*time.Millisecond {
+		// ... up to the first heartbeat the coordinator refused or dropped: that ends the generation, handed out or not
+		waitEnd := gi.start
+		if !gi.silent.IsZero() && gi.silent.Before(waitEnd) {
+			waitEnd = gi.silent
+		}
+		if gap := waitEnd.Sub(syncedAt); !syncedAt.IsZero() && gap >= 10*hb+300*time.Millisecond {
 			n := 0
 			for _, at := range gi.times {
-				if at.After(syncedAt) && at.Before(gi.start) {
+				if at.After(syncedAt) && at.Before(waitEnd) {
 					n++
 				}
 			}
